@@ -428,6 +428,13 @@ pub fn bundle(names: Vec<&'static str>, parser_strings: bool) -> BoxedStrategy<B
                     }
                 }
             }
+            // observational / lunisolar calendars take seconds to minutes per conversion far from the present (ICU4X;
+            // a liveness matter reported by C03/C16): keep raw constructor years near the present for them
+            let slow = |c: usize| matches!(CALS[c], "islamic" | "islamic-umalqura" | "chinese" | "dangi");
+            let mut raw = raw;
+            if slow(c1) || slow(c2) {
+                raw[0] = raw[0].clamp(-8000, 8000);
+            }
             let s = if parser_strings { compose_string(&a, z1, CALS[c1], style) } else { ident_string(k, CALS[c1]) };
             Bundle {
                 f: f.to_string(),
